@@ -462,7 +462,8 @@ theorem C02_env_obs_in_declared_space (e : EpisodeCfg) : ∀ (sts : List SimStat
       rwa [C02_env_space_within_episode] at this
 
 /-- what `buildV` adds to `build`: the constructors' threshold validation passed on every constructed component -/
-theorem buildV_some (thr : ThrCfg) (r : RawObs) (o : Obs) (h : r.buildV thr = some o) : r.build thr = some o ∧ o.thrValid = true := by
+theorem buildV_some (thr : ThrCfg) (r : RawObs) (o : Obs) (h : r.buildV thr = some o) :
+    r.build thr = some o ∧ r.ctorThrValid thr = true := by
   unfold RawObs.buildV at h
   cases hr : r.build thr with
   | none => simp [hr] at h
